@@ -9,8 +9,8 @@ import z3
 from eqlvc import z as Z
 from eqlvc.interp import (SV, ZV, C, D, Tup, Lst, Obj, Meth, Closure, Ref, NONE, TRUE, FALSE, State, Outcome,
                           OutOfSubset, NEXT, CONTINUE, BREAK, RETURN, RAISE, GENEXIT)
-from .interface import (EvalContract, child_shape, tree_shape, MapRel, LeafIds, total, WD, lab, Binds, TRUE_IDS,
-                        position_sensitive, pre_I, good_hyps)
+from .interface import (EvalContract, child_shape, tree_shape, MapRel, LeafIds, total, WD, lab, filt, Binds, TRUE_IDS,
+                        pre_I, good_hyps)
 
 f_sel = z3.Function('f_sel', Z.Node, Z.I, Z.Node)     # descriptor.selected_variables[i]
 has_child = z3.Function('has_child', Z.Node, Z.B)
@@ -39,7 +39,7 @@ class AnEval(EvalContract):
     def shape_facts(self, n):
         c, v = Z.f_child(n), Z.f_var(n)
         return child_shape(n, c) + [
-            Z.truth_node(n), Z.truth_node(c), z3.Not(position_sensitive(c)),
+            Z.truth_node(n), Z.truth_node(c),
             Z.is_value(n) == (v != Z.NoneNode),
             Binds(n) == z3.If(v != Z.NoneNode, only_ids([Z.nid(n), Z.nid(v)]), only_ids([])),
             # An.__post_init__: self._var_ = self._child_._var_ ; a descriptor's rows bind its selected variable
@@ -49,6 +49,9 @@ class AnEval(EvalContract):
 
     def den(self, n, rho):
         return Z.Den(Z.f_child(n), rho)
+
+    def binds_def(self, n):
+        return None       # given in shape_facts
 
     def own(self, n, m):
         v = Z.f_var(n)
@@ -87,6 +90,9 @@ class DescriptorMixin:
         # T3: a selected expression is evaluated as a value; it is assumed not to be, at the same time, a direct
         # operand of a logical operator whose evaluation is still suspended (its position test then sees `value`)
         return any(c.eq(s) for s in self.sel(st.ghost['self']))
+
+    def binds_def(self, n):
+        return None       # given in shape_facts
 
     def node__inform_selected_variables_that_they_should_be_inferred_(self, eng, st, recv, args, kwargs, node):
         q = self.src.resolve_method(self.cls, '_inform_selected_variables_that_they_should_be_inferred_')
@@ -174,11 +180,9 @@ class QODEvaluate(DescriptorMixin, EvalContract):
                 out.append(s2)
         return out
 
-    def on_yield(self, eng, st, v, ordinal, node):
-        return super().on_yield(eng, st, v, ordinal, node)
-
-    def shape_facts(self, n):
-        return super().shape_facts(n)
+    def binds_ids(self, st, n):
+        # `_evaluate_` binds the selected variables it was given
+        return only_ids([]) if st.ghost.get('no_sel') else Binds(n)
 
     def obj_conclusions___iter__(self, *a):
         raise OutOfSubset("conclusions")
@@ -214,7 +218,7 @@ class QODEvaluate(DescriptorMixin, EvalContract):
                 c = stream.data['node']
                 sig, sref = self.sigma_of(eng, b, stream)
                 row = eng.new_dict(b, Z.ZMap.fresh(f'prow{i}'))
-                m = self.assume_row(b, c, sig, stream.data['ywf'], b.dicts[row.ref])
+                m = self.assume_row(b, c, sig, stream.data['ywf'], b.dicts[row.ref], filt(c, b.fields['eval_parent']))
                 if witness:
                     b.assume(Z.ext(rho, m))
                 rows.append((k, row))
@@ -250,7 +254,8 @@ class QODEvaluate(DescriptorMixin, EvalContract):
         for (k, stream) in items:
             c = stream.data['node']
             sig, _ = self.sigma_of(eng, st, stream)
-            hyps.append(z3.And(Z.ext(rho, sig), WD(c, rho), z3.Implies(lab(c), z3.Or(Z.Den(c, rho), stream.data['ywf']))))
+            hyps.append(z3.And(Z.ext(rho, sig), WD(c, rho),
+                               z3.Implies(filt(c, st.fields['eval_parent']), z3.Or(Z.Den(c, rho), stream.data['ywf']))))
         for b, holds in eng.branch(st, z3.And(*hyps), f"WP{ordinal}"):
             mutated = self.scout_mutations(eng, frames(b), body, iteration)
             h = self.havoc_for_loop(eng, frames(b), body, extra_refs=mutated)
@@ -313,7 +318,8 @@ class SetOfEval(DescriptorMixin, EvalContract):
             outs.append((b2, row))
         # (b) the stream is empty: StopIteration propagates out of the generator (RuntimeError for the consumer)
         e = st.clone()
-        hyp = lambda r: z3.And(Z.ext(r, sig), WD(c, r), z3.Implies(lab(c), z3.Or(Z.Den(c, r), s.data['ywf'])))
+        fc = filt(c, st.fields['eval_parent'])
+        hyp = lambda r: z3.And(Z.ext(r, sig), WD(c, r), z3.Implies(fc, z3.Or(Z.Den(c, r), s.data['ywf'])))
         e.qf.append(lambda r: z3.Not(hyp(r)))
         for env in e.ghost.get('envs', []):
             e.assume(e.qf[-1](env))
